@@ -2,6 +2,9 @@
 //! `Bindgen` trait into an IR (`ir`), execute it on concrete values (`vm`), shared harness
 //! plumbing for the C01–C04 binaries (`harness`).
 pub mod c01;
+pub mod c02;
+pub mod c03;
+pub mod c04;
 pub mod harness;
 pub mod ir;
 pub mod vm;
